@@ -93,12 +93,12 @@ static Str joinIdx(const Vec<int>& v) { Str s; for (size_t i = 0; i < v.size(); 
 struct Outcome {           // what one execution of a scenario looked like from the outside
     Vec<Str> log;          // per completed call: returned value through every legal getter, output bytes
     Vec<Str> otherHas, otherVal;   // per completed call: what the other mock support (root vs. named scope) answers about return values
-    size_t failures; Str firstFailure; Str allText; bool bodyCompleted; size_t callsMade;
-    Outcome() : failures(0), bodyCompleted(false), callsMade(0) {}
+    size_t failures; Str firstFailure; Str allText; bool bodyCompleted; size_t callsMade; size_t crashes /* times the framework's crash method was asked for (crashOnFailure) */;
+    Outcome() : failures(0), bodyCompleted(false), callsMade(0), crashes(0) {}
 };
 struct CallPlan { int fn; int obj; Vec<int> vals; Str dev; int task; bool extra; int scope; bool shortForm; int xget; };   // xget: 0, or one more read of the returned value through getter number xget, whatever the stored type
 struct ExpPlan { int fn; int count; int flags; int obj; Vec<int> vals; int ret; int scope; };      // flags: 1 ignoreOtherParameters, 2 named scope, 4 short form (last parameter not specified, and not passed by its calls)
-struct Scenario { bool strict, ignoreOther, useScope, preFail; bool otherVal /* also read a value through the other mock support (known finding C19-support-level-value-of-other-scope) */; int rounds; int type2 /* fn6's object parameter uses a second custom type: same equality function, other to-string */, tol /* 0 none, else index into tolPool for fn3's double parameter */; Vec<ExpPlan> exps; Vec<CallPlan> calls; Vec<Op> data; };
+struct Scenario { bool strict, ignoreOther, useScope, preFail; bool crashOn /* crashOnFailure switched on: the crash method (a counter here) must be asked for by the same failures through both interfaces */; bool otherVal /* also read a value through the other mock support (known finding C19-support-level-value-of-other-scope) */; int rounds; int type2 /* fn6's object parameter uses a second custom type: same equality function, other to-string */, tol /* 0 none, else index into tolPool for fn3's double parameter */; Vec<ExpPlan> exps; Vec<CallPlan> calls; Vec<Op> data; };
 
 static const char* objType(const Scenario& sc) { return sc.type2 ? "MyType2" : "MyType"; }
 // how many parameters an expectation specifies: all, or all but the last for ignoreOtherParameters (functions with two or more) and for the short form (functions with one or more)
@@ -157,6 +157,7 @@ struct CppFront : public Front {
         mock("scope1");                                  // the named scope exists before anything recursive is switched on
         if (sc.strict) m(sc).strictOrder();
         if (sc.ignoreOther) mock().ignoreOtherCalls();
+        mock().crashOnFailure(sc.crashOn);
     }
     void expect(const Scenario& sc, const ExpPlan& e) {
         const Fn& F = FNS[e.fn];
@@ -321,6 +322,7 @@ struct CFront : public Front {
         mock_scope_c("scope1");
         if (sc.strict) m(sc)->strictOrder();
         if (sc.ignoreOther) mock_c()->ignoreOtherCalls();
+        mock_c()->crashOnFailure(sc.crashOn ? 1 : 0);
     }
     void expect(const Scenario& sc, const ExpPlan& e) {
         const Fn& F = FNS[e.fn];
@@ -477,6 +479,7 @@ struct CFront : public Front {
 struct TestCtx { const Scenario* sc; Front* front; Outcome* out; const Vec<size_t>* order; };
 static Vec<TestCtx> g_tests; static int g_current = -1;
 
+static void countCrashRequest() { if (g_current >= 0 && (size_t)g_current < g_tests.size()) g_tests[(size_t)g_current].out->crashes++; }
 static void scenarioBody() {
     TestCtx& T = g_tests[(size_t)g_current];
     const Scenario& sc = *T.sc;
@@ -551,7 +554,7 @@ struct Engine : public vf::Engine {
         for (int s = 0; s < nScen; s++) {
             Group G; G.tag = "scenario";
             bool strict = w.chance(1, 4), ignoreOther = w.chance(1, 5), scope = w.chance(1, 5);
-            G.args.push_back(strict); G.args.push_back(ignoreOther); G.args.push_back(scope); G.args.push_back(w.chance(1, cfront ? 6 : 10)); G.args.push_back(cfront && w.chance(1, 6) ? 2 : 1); G.args.push_back(cfront && w.chance(1, 5)); G.args.push_back(cfront && w.chance(1, 5) ? (int64_t)w.range(1, 3) : 0); G.args.push_back(cfront && w.chance(1, 12));
+            G.args.push_back(strict); G.args.push_back(ignoreOther); G.args.push_back(scope); G.args.push_back(w.chance(1, cfront ? 6 : 10)); G.args.push_back(cfront && w.chance(1, 6) ? 2 : 1); G.args.push_back(cfront && w.chance(1, 5)); G.args.push_back(cfront && w.chance(1, 5) ? (int64_t)w.range(1, 3) : 0); G.args.push_back(cfront && w.chance(1, 12)); G.args.push_back(cfront && w.chance(1, 6));
             bool mixedScopes = !strict && !scope && w.chance(1, 4), shortForms = w.chance(1, 5);
             int nFn = (int)w.range(1, 4); int fns[4]; for (int i = 0; i < nFn; i++) fns[i] = (int)w.below(N_FN);
             int nExp = (int)w.small(1, 12);
@@ -631,7 +634,7 @@ struct Engine : public vf::Engine {
 
     // -------------------------------------------------------------------------------------------- model
     static void buildScenario(const Group& G, Scenario& sc) {
-        sc.strict = G.arg(0) != 0; sc.ignoreOther = G.arg(1) != 0; sc.useScope = G.arg(2) != 0; sc.preFail = G.arg(3) != 0; sc.rounds = G.arg(4, 1) == 2 ? 2 : 1; sc.type2 = (int)G.arg(5); sc.tol = (int)(G.arg(6) & 3); sc.otherVal = G.arg(7) != 0;
+        sc.strict = G.arg(0) != 0; sc.ignoreOther = G.arg(1) != 0; sc.useScope = G.arg(2) != 0; sc.preFail = G.arg(3) != 0; sc.rounds = G.arg(4, 1) == 2 ? 2 : 1; sc.type2 = (int)G.arg(5); sc.tol = (int)(G.arg(6) & 3); sc.otherVal = G.arg(7) != 0; sc.crashOn = G.arg(8) != 0;
         for (size_t i = 0; i < G.ops.size(); i++) {
             const Op& o = G.ops[i];
             if (o.kind == M_EXPECT) { ExpPlan e; e.fn = (int)(o.a % N_FN); e.count = (int)o.b; e.flags = (int)o.c; e.obj = (int)o.d; e.vals = parseIdx(o.s); e.vals.resize((size_t)FNS[e.fn].np, 0); e.ret = atoi(o.s2.c_str()); e.scope = (e.flags & 2) ? 1 : 0; sc.exps.push_back(e); }
@@ -752,7 +755,9 @@ struct Engine : public vf::Engine {
         MockSupportPlugin plugin; reg.installPlugin(&plugin);
         RecOutput out; TestResult res(out);
         UtestShell::setRethrowExceptions(false);
+        UtestShell::setCrashMethod(countCrashRequest);
         reg.runAllTests(res);
+        UtestShell::resetCrashMethod(); mock().crashOnFailure(false); mock_c()->crashOnFailure(0);
         reg.resetPlugins();
         mock().clear(); mock().removeAllComparatorsAndCopiers();
         saved->setCurrentRegistry(0);
@@ -843,6 +848,7 @@ struct Engine : public vf::Engine {
                         probe("scenario_reads_value_through_other_support");
                         continue;
                     }
+                    if (outs[i].crashes != outsC[i].crashes) r.fail("C19", "crash_on_failure", sfmt("scenario %zu (crashOnFailure %s): the crash method was asked for %zu times through C++ and %zu times through C", i, scs[i].crashOn ? "on" : "off", outs[i].crashes, outsC[i].crashes));
                     if (outs[i].failures != outsC[i].failures) { r.fail("C19", "verdict", sg("what", outs[i].failures < outsC[i].failures ? "C fails more" : "C++ fails more"), sfmt("scenario %zu: %zu failures through C++, %zu through C; C++: %s | C: %s", i, outs[i].failures, outsC[i].failures, Json::S(firstLine(outs[i].firstFailure)).dump().c_str(), Json::S(firstLine(outsC[i].firstFailure)).dump().c_str())); continue; }
                     if (outs[i].firstFailure != outsC[i].firstFailure) r.fail("C19", "failure_text", sfmt("scenario %zu: C++ says %s, C says %s", i, Json::S(outs[i].firstFailure.substr(0, 300)).dump().c_str(), Json::S(outsC[i].firstFailure.substr(0, 300)).dump().c_str()));
                     if (outs[i].log.size() != outsC[i].log.size()) { r.fail("C19", "calls_completed", sfmt("scenario %zu: %zu calls completed through C++, %zu through C", i, outs[i].log.size(), outsC[i].log.size())); continue; }
